@@ -345,6 +345,34 @@ def commitF (s : State) (recs : List Rec) (failAt : Option Nat) : State × Outco
       let (s2, panicked) := buildIdxes s1 recs
       if panicked then (s2, .panic) else (s2, .ok ())
 
+/-! ### Commit with an injected `Sync` error
+
+`failAt = i`: the `Sync` that follows the write of the record with index `i` fails (`SyncEnable`; the FS hook
+of the harness vetoes the sync). The loop returns at once: record `i` is in the file at the write offset, the
+offsets have not advanced, the record is not indexed and — when it was the last — the transaction id is not
+noted. The sync of the last record is never failed (neither here nor by the harness): the property leaves that
+outcome in doubt. (The next write would land on top of record `i`; the harness closes and reopens before any.) -/
+
+def commitLoopS (s : State) (recs : List Rec) (failAt : Nat) : State × Bool :=
+  match recs with
+  | [] => (s, true)
+  | r :: rest =>
+    if r.size > s.opt.seg then (s, false)
+    else if failAt == 0 && !rest.isEmpty then
+      let s1 := preRotate s r
+      let r1 := markLast r false
+      ({ s1 with files := if s1.activeUnlinked then s1.files else fileAppend s1.files s1.activeFid s1.writeOff r1 }, false)
+    else commitLoopS (writeRec s r rest.isEmpty) rest (failAt - 1)
+
+def commitS (s : State) (recs : List Rec) (failAt : Nat) : State × Outcome Unit :=
+  if recs.isEmpty then (s, .ok ())
+  else
+    let (s1, fine) := commitLoopS s recs failAt
+    if !fine then (s1, .err)
+    else
+      let (s2, panicked) := buildIdxes s1 recs
+      if panicked then (s2, .panic) else (s2, .ok ())
+
 /-! ### Open (recovery) -/
 
 def allRecs (fs : List File) : List (Rec × Nat × Nat) :=
